@@ -306,15 +306,15 @@ func gen(r *lib.Rand, tier, stream string, i int) History {
 	h := History{Module: mod, Via: r.Weighted(6, 2, 2)}
 	switch mod {
 	case "coinswap":
-		genCS(r, &h)
+		genCS(r, &h, i)
 	case "farm":
-		genFM(r, &h)
+		genFM(r, &h, i)
 	case "htlc":
-		genHT(r, &h)
+		genHT(r, &h, i)
 	case "service":
-		genSV(r, &h)
+		genSV(r, &h, i)
 	case "token":
-		genTK(r, &h)
+		genTK(r, &h, i)
 	}
 	return h
 }
@@ -353,6 +353,30 @@ func genRate(r *lib.Rand, def string) ON {
 	default:
 		return sp(new(big.Int).Neg(new(big.Int).Lsh(big.NewInt(1), uint(100+r.Intn(200)))).String())
 	}
+}
+
+// Boundary sweep: the first cases of every stream are deterministic -- the default set with ONE
+// field set to each value of a fixed table (valid boundaries such as 0 / 1 - 10^-18 / 1, values just
+// outside, absent, extreme magnitudes), submitted by the authority (every 5th: through genesis) and
+// followed by one instance of every operation kind.  The random cases come after.
+func sweepRates() []ON {
+	one := new(big.Int).Set(p18)
+	return []ON{sp("0"), sp("1"), sp(new(big.Int).Sub(one, big.NewInt(1)).String()), sp(one.String()),
+		sp(new(big.Int).Add(one, big.NewInt(1)).String()), sp(new(big.Int).Mul(one, big.NewInt(2)).String()), sp("-1"), nil,
+		sp(new(big.Int).Lsh(big.NewInt(1), 300).String()), sp(new(big.Int).Neg(new(big.Int).Lsh(big.NewInt(1), 200)).String()),
+		sp("500000000000000000")}
+}
+func sweepAmounts() []ON {
+	max := new(big.Int).Lsh(big.NewInt(1), 256)
+	max.Sub(max, big.NewInt(1))
+	return []ON{sp("0"), sp("1"), sp("-1"), nil, sp(max.String()), sp(new(big.Int).Lsh(big.NewInt(1), 255).String()),
+		sp(new(big.Int).Lsh(big.NewInt(1), 254).String()), sp("123456789012345678901234567890")}
+}
+func sweepVia(i int) int {
+	if i%5 == 4 {
+		return 2
+	}
+	return 0
 }
 
 // genAmount draws an integer amount field: default, zero, one, negative, extreme, absent.
